@@ -177,6 +177,13 @@ def num_slack(R):
     return 1e3 * EPS * R.cond ** 2
 
 
+def x_noise(An, R):
+    """rounding of the right-hand sides (2.6e-5 mm for 6.4e9 mm coordinates) propagated to the unknowns [mm]:
+    |dx_i| <= sqrt(Q_ii) |W db|"""
+    wmax = 1.0 / max(float(np.linalg.eigvalsh(An.Q)[0]), 1e-300)
+    return np.sqrt(np.maximum(np.diag(R.Q), 0.0)) * math.sqrt(R.m * wmax) * 2.6e-5
+
+
 def rtr_floor(An, R):
     """rounding of 6.4e9 mm coordinates (1e-6 mm) in every right-hand side, weighted"""
     w = 1.0 / max(float(np.linalg.eigvalsh(An.Q)[0]), 1e-300)
@@ -311,6 +318,8 @@ def check_against_reference(net, An, R, G, alg, stats, tsuf):
     sl = num_slack(R)
     x = R.x
     xs = max(float(np.max(np.abs(x))), 1e-3)
+    # rounding of the right-hand sides (2.6e-5 mm for 6.4e9 mm coordinates) propagated to the unknowns: |dx_i| <= sqrt(Q_ii) |W db|
+    xnoise = x_noise(An, R)
     # sums
     rtr = R.rtr
     tol = 5.1e-6 * abs(rtr) + sl * max(rtr, float(R.bb @ R.bb)) + rtr_floor(An, R)
@@ -340,7 +349,7 @@ def check_against_reference(net, An, R, G, alg, stats, tsuf):
         gp = G["points"][ids[p]]
         d = gp[c]["d"]
         # non-linear observations: my Jacobian is numerical and compared with the dump to 2e-6 of the row scale only
-        tol = 5.1e-4 + sl * xs + (4e-6 * xs * R.cond if nonlin else 0.0)
+        tol = 5.1e-4 + sl * xs + (4e-6 * xs * R.cond if nonlin else 0.0) + xnoise[k]
         stats.ratio("ref.dneu", abs(d - x[k]) / tol)
         if abs(d - x[k]) > tol:
             f.append("%s.%s.correction.%s: %s d%s printed %.3f mm, reference %.6f mm (cond %.3g)" % (pre, alg, tsuf, ids[p], c, d, x[k], R.cond))
@@ -353,7 +362,8 @@ def check_against_reference(net, An, R, G, alg, stats, tsuf):
             if gp[c]["correction"] is None:
                 f.append("%s.xyz_missing: %s has adjusted components but no <%s-correction>" % (pre, ids[p], c))
                 continue
-            tol = 1.6e-9 + 1e-11 * abs(dx[i]) + sl * xs * 1e-3 + 2e-15 * 6.4e6 + (4e-9 * xs * R.cond if nonlin else 0.0)
+            tol = (1.6e-9 + 1e-11 * abs(dx[i]) + sl * xs * 1e-3 + 2e-15 * 6.4e6 + (4e-9 * xs * R.cond if nonlin else 0.0)
+                   + 1e-3 * math.sqrt(sum(xnoise[An.pidx[(p, cc)]] ** 2 for cc in g3ref.COMPS if (p, cc) in An.pidx)))
             stats.ratio("ref.xyz_correction", abs(gp[c]["correction"] - dx[i]) / tol)
             if abs(gp[c]["correction"] - dx[i]) > tol:
                 f.append("%s.%s.xyz_correction.%s: %s %s printed %.9f, reference %.9f" % (pre, alg, tsuf, ids[p], c, gp[c]["correction"], dx[i]))
@@ -521,7 +531,7 @@ def check_min_norm(net, An, R, G, alg, stats):
     return f
 
 
-def compare_results(tag, G1, G2, sl, xs, stats, skip_given=(), what1="", what2="", floors=(0.0, 0.0, 0.0), skip_stdev_obs=False):
+def compare_results(tag, G1, G2, sl, xs, stats, skip_given=(), what1="", what2="", floors=(0.0, 0.0, 0.0), skip_stdev_obs=False, xn=0.0):
     """two printed results (two algorithms / two record orders): everything that is printed must agree"""
     f = []
     S1, S2 = G1["stats"], G2["stats"]
@@ -546,7 +556,7 @@ def compare_results(tag, G1, G2, sl, xs, stats, skip_given=(), what1="", what2="
             if a[c]["status"] != b[c]["status"] or (a[c]["d"] is None) != (b[c]["d"] is None):
                 f.append("%s.status: %s %s %s vs %s" % (tag, pid, c, a[c], b[c]))
             elif a[c]["d"] is not None and pid not in skip_given:
-                tol = 1.1e-3 + sl * xs
+                tol = 1.1e-3 + sl * xs + xn
                 stats.ratio(tag + ".dneu", abs(a[c]["d"] - b[c]["d"]) / tol)
                 if abs(a[c]["d"] - b[c]["d"]) > tol:
                     f.append("%s.correction: %s d%s %s %.3f vs %s %.3f mm" % (tag, pid, c, what1, a[c]["d"], what2, b[c]["d"]))
@@ -557,7 +567,7 @@ def compare_results(tag, G1, G2, sl, xs, stats, skip_given=(), what1="", what2="
                 elif a[c][k] is not None:
                     if k != "adjusted" and pid in skip_given:
                         continue
-                    tol = (2.2e-9 + sl * xs * 1e-3) if k != "given" else 1e-12
+                    tol = (2.2e-9 + sl * xs * 1e-3 + xn * 1e-3) if k != "given" else 1e-12
                     if k != "given":
                         stats.ratio(tag + ".xyz", abs(a[c][k] - b[c][k]) / tol)
                     if abs(a[c][k] - b[c][k]) > tol:
@@ -655,7 +665,7 @@ def check_dump_structure(net, An, R, G, dump_text, stats):
         for d in range(dim):
             rn = tscale[o["t"]] if o["t"] in gm.ANGULAR and tscale[o["t"]] > 0 else max(tscale[o["t"]], 1.0)
             e = float(np.max(np.abs(Ag[r + d] - An.A[r + d]))) / rn
-            tol = 1e-9 if o["t"] in ("vector", "xyz") else 2e-6
+            tol = 1e-8 if o["t"] in ("vector", "xyz") else 2e-6
             stats.ratio("dump.design." + o["t"], e / tol)
             if e > tol:
                 extra = "+dh" if any(o.get(kk) for kk in ("fdh", "tdh", "ldh", "rdh")) else ""
@@ -668,7 +678,7 @@ def check_dump_structure(net, An, R, G, dump_text, stats):
             # right-hand side
             # mm: rounding of 6.4e9 mm coordinates; cc: rounding of the angle and of the gon text
             # (gama evaluates angles and zenith angles by acos: 1.5e-8 rad = 0.01 cc near 0 and 200 gon)
-            sc_r = 1e-12 * abs(An.rhs[r + d]) + (1e-15 * 6.4e9 if o["t"] in ("vector", "xyz", "distance", "height", "hdiff") else 0.02)
+            sc_r = 1e-12 * abs(An.rhs[r + d]) + (4e-15 * 6.4e9 if o["t"] in ("vector", "xyz", "distance", "height", "hdiff") else 0.02)
             er = abs(D["rhs"][r + d] - An.rhs[r + d])
             stats.ratio("dump.rhs." + o["t"], er / sc_r)
             if er > sc_r:
@@ -797,6 +807,8 @@ def collapse(tag, cls):
             return "g3.dump.adj.%s.%s.solution" % (parts[3], cls)
         if q in ("qxx", "qbb"):
             return "g3.dump.adj.%s.%s.covariance" % (parts[3], cls)
+    if len(parts) >= 3 and parts[1] in ("truth", "truth_free"):
+        return "g3.truth.%s.%s" % (parts[2], cls)
     if len(parts) == 3 and parts[:2] == ["g3", "min_norm"]:
         return "g3.ref.%s.free.solution" % parts[2]
     return tag
@@ -830,6 +842,17 @@ def refused_text(r):
 
 
 def oracle(case, stats):
+    """entry point: an exception of the harness itself is turned into a failure with its own tag, so that the case is
+    saved as a replay file instead of aborting the worker"""
+    try:
+        return _oracle(case, stats)
+    except Exception as e:          # pragma: no cover
+        import traceback
+        stats.label("harness.exception")
+        return ["harness.exception: %s: %s | %s" % (type(e).__name__, e, traceback.format_exc()[-700:].replace("\n", " | "))]
+
+
+def _oracle(case, stats):
     net = case["net"]
     pre = prepare(net, stats)
     if pre is None:
@@ -907,6 +930,8 @@ def oracle(case, stats):
     fails += refusals
     for alg, G in results.items():
         fails += check_against_reference(net, An, R, G, alg, stats, tsuf)
+        if G["stats"]["defect"] != R.d:
+            continue              # another rank decision (reported): everything else differs as a consequence
         fails += check_min_norm(net, An, R, G, alg, stats)
         if not net["noisy"]:
             fails += check_truth(net, An, R, G, alg, stats, tsuf)
@@ -946,7 +971,8 @@ def oracle(case, stats):
             skip = set(ids[i] for i in override)
             tag = ("g3.perm_interleaved." if order.get("interleave") else "g3.perm.") + case["alg"]
             mixed = any(len(set(gm.OBS_DIM[o["t"]] for o in cl["obs"])) > 1 for cl in net["clusters"])
-            fails += compare_results(tag, G0, G2, sl, xs, stats, skip_given=skip, what1="original", what2="permuted", floors=fl, skip_stdev_obs=mixed)
+            fails += compare_results(tag, G0, G2, sl, xs, stats, skip_given=skip, what1="original", what2="permuted", floors=fl, skip_stdev_obs=mixed,
+                                     xn=float(np.max(x_noise(An, R))))
     stats.label("complete." + net["kind"])
     return finish(fails, R)
 
